@@ -30,6 +30,8 @@ int __real_fstat(int, struct stat *);
 int __real_close(int);
 FILE *__real_fopen(const char *, const char *);
 size_t __real_fwrite(const void *, size_t, size_t, FILE *);
+ssize_t __real_read(int, void *, size_t);
+ssize_t __real_write(int, const void *, size_t);
 int __real_fclose(FILE *);
 
 #define MAXPLAN 16
@@ -250,6 +252,28 @@ size_t __wrap_fwrite(const void *p, size_t sz, size_t n, FILE *f) {
     return k;
   }
   return __real_fwrite(p, sz, n, f);
+}
+
+/* read and write: mode 1 is a short transfer (half of what was asked for) - legal behaviour of the OS that a correct caller
+ * absorbs or reports, never a reason for a wrong result; every other mode refuses the call */
+ssize_t __wrap_read(int fd, void *p, size_t n) {
+  int m = point("read");
+  if (m == 1) return __real_read(fd, p, n > 1 ? n / 2 : n);
+  if (m >= 0) {
+    errno = EIO;
+    return -1;
+  }
+  return __real_read(fd, p, n);
+}
+
+ssize_t __wrap_write(int fd, const void *p, size_t n) {
+  int m = point("write");
+  if (m == 1) return __real_write(fd, p, n > 1 ? n / 2 : n);
+  if (m >= 0) {
+    errno = ENOSPC;
+    return -1;
+  }
+  return __real_write(fd, p, n);
 }
 
 int __wrap_fclose(FILE *f) {
